@@ -13,6 +13,13 @@ NOTE = ("Trusted base: clang 14 front end + CFG builder on the flags of the comp
 
 CLAIMS = {
     # pid: (technique, level text, design_ref)
+    "C12": ("guard analysis (dominating-edge facts incl. latch flags and a propositional step over main's option rejection) on do_source_file/main; who-may-write for the counter and both sinks; structural check of bout_content_matches",
+            "Every file-creating event of do_source_file and main's stdout redirection is shown control-dependent on !do_check; the "
+            "failure counter is incremented exactly under do_check && !bout_content_matches on every returning path after output_text "
+            "and alone decides main's status; bout_content_matches is false exactly on a size or byte difference over the whole "
+            "buffer and prints PASS/FAIL under the same conditions; write_byte is the only feeder of both sinks with the same value; "
+            "the --if-changed early return precedes every file-creating event. Holds for all inputs/configurations; determinism of "
+            "formatting itself is C10's subject.", "DESIGN.md section 4 C12"),
     "C13": ("must-pass-through / dominance on do_source_file's CFG (backup < open(tmp) < write < close < rename, rename guarded by clean close) + who-may-call for rename/unlink/write-mode opens",
             "For every path of do_source_file(): only the suffixed temp name is opened for writing, a backup (unless no_backup) and its "
             "failure exit precede it, fclose precedes rename with no write in between, the rename is control-dependent on a clean "
